@@ -16,9 +16,19 @@ env = dict(os.environ, GOFLAGS="-mod=mod", GOPROXY="off", GOSUMDB="off", GOTOOLC
 def run(cmd, cwd, timeout=900):
     p = subprocess.run(cmd, cwd=cwd, shell=True, env=env, capture_output=True, text=True, timeout=timeout)
     return p.returncode, (p.stdout + p.stderr)
+base = None
+if "--base" in sys.argv:
+    base = sys.argv[sys.argv.index("--base") + 1] or None
 d = tempfile.mkdtemp(prefix="seedeval.", dir="/tmp")
 try:
     run("cp -r /repo/. . && rm -rf .git", d)
+    if base:
+        # the seed was written against an optimised baseline: /repo plus the base patch (an accepted behaviour-preserving
+        # rewrite).  The clean-tree runs use that baseline; the stored patch.diff is the combined change relative to /repo.
+        run("git init -q . && git add -A && git -c user.name=x -c user.email=x@x commit -qm pristine", d)
+        rc, out = run(f"git apply {base}", d)
+        if rc != 0:
+            print("BASE PATCH FAILED", out); sys.exit(2)
     patch = f"{src}/change{k}.diff"
     demos = [f for f in glob.glob(f"{src}/demo{k}*") if not f.endswith(".md")]
     meta = {"property": ID, "index": int(k), "ran": []}
@@ -46,6 +56,8 @@ try:
     unplace()
     meta["ran"].append({"cmd": demo_cmd + "   # demo on the clean tree", "exit": rc_clean})
     rc, out = run(f"git init -q . 2>/dev/null; git apply {patch}", d)
+    if base and rc == 0:
+        run(f"git add -N . ; git diff > {d}/../seedeval.combined.{os.getpid()}.diff", d)
     if rc != 0:
         rc, out = run(f"patch -p1 < {patch}", d)
     meta["ran"].append({"cmd": "git apply patch.diff", "exit": rc})
@@ -79,7 +91,12 @@ try:
         meta["needs"] = open(notes).read()[:3000]
     out_dir = f"/verif/seeded/{out_name}"
     os.makedirs(out_dir, exist_ok=True)
-    shutil.copy(patch, f"{out_dir}/patch.diff")
+    if base:
+        shutil.copy(f"/tmp/seedeval.combined.{os.getpid()}.diff", f"{out_dir}/patch.diff")
+        os.remove(f"/tmp/seedeval.combined.{os.getpid()}.diff")
+        meta["baseline"] = "an accepted behaviour-preserving optimisation of /repo (" + os.path.basename(os.path.dirname(base)) + "/" + os.path.basename(base) + ", in selfval/preserving); patch.diff is the combined change relative to /repo"
+    else:
+        shutil.copy(patch, f"{out_dir}/patch.diff")
     for f in demos:
         if os.path.isdir(f):
             shutil.copytree(f, os.path.join(out_dir, os.path.basename(f)), dirs_exist_ok=True)
